@@ -99,6 +99,8 @@ def r19_1(rep: Report) -> None:
                     for i, part in enumerate(parts):
                         if not isinstance(part, ast.FormattedValue):
                             continue
+                        if _is_text(fn, part.value):
+                            continue           # a string spliced in (prefix, stripped fraction), not a number
                         spec = norm(part.format_spec) if part.format_spec else ''
                         m = re.search(r'0(\d+)d?', spec)
                         after = ''
@@ -114,6 +116,28 @@ def r19_1(rep: Report) -> None:
     if not any('fraction' in f for f in seen_fields):
         raise AnalysisError('toIsoDuration: no fixed-width fraction formatting recognised '
                             '(unknown idiom)')
+
+
+def _is_text(fn: ast.AST, e: ast.AST) -> bool:
+    """is the expression a string: a literal, an f-string, a str method result, or a local that is
+    only ever assigned such values"""
+    if isinstance(e, ast.JoinedStr) or (isinstance(e, ast.Constant) and isinstance(e.value, str)):
+        return True
+    if isinstance(e, ast.Call) and isinstance(e.func, ast.Attribute) \
+            and e.func.attr in ('rstrip', 'lstrip', 'strip', 'join', 'format', 'zfill', 'ljust', 'rjust'):
+        return True
+    if isinstance(e, ast.BinOp) and isinstance(e.op, ast.Add):
+        return _is_text(fn, e.left) or _is_text(fn, e.right)
+    if isinstance(e, ast.IfExp):
+        return _is_text(fn, e.body) and _is_text(fn, e.orelse)
+    if isinstance(e, ast.Name):
+        if any(isinstance(a, ast.AnnAssign) and norm(a.target) == e.id and norm(a.annotation) == 'str'
+               for a in ast.walk(fn)):
+            return True
+        ds = [a.value for a in ast.walk(fn) if isinstance(a, (ast.Assign, ast.AnnAssign)) and a.value is not None
+              and norm(a.targets[0] if isinstance(a, ast.Assign) else a.target) == e.id]
+        return bool(ds) and all(_is_text(fn, d) for d in ds if not (isinstance(d, ast.Name) and d.id == e.id))
+    return False
 
 
 def _float_derived(fn: ast.FunctionDef) -> set[str]:
